@@ -478,6 +478,17 @@ fn check_svm_single_observation(c: &mut Case) -> Outcome {
         Ok(Err(e)) => return inconclusive(format!("svm fit: {e}")),
         Err(p) => return inconclusive(format!("svm fit panicked: {p}")),
     };
+    // a published coefficient below the support-vector threshold (100 eps) must not change which
+    // coefficient goes with which support vector - in any calling form (state injected through the
+    // public field; fits do publish such values now and then)
+    let mut model = model;
+    if c.rng.gen_bool(0.5) {
+        let last_sv = model.alpha.iter().rposition(|a| a.abs() > 100.0 * f64::EPSILON);
+        if let Some(j) = last_sv.and_then(|l| model.alpha[..l].iter().position(|a| *a == 0.0)) {
+            model.alpha[j] = 50.0 * f64::EPSILON;
+            c.count("svm-models-with-an-injected-sub-threshold-coefficient");
+        }
+    }
     let batch: Array1<bool> = model.predict(&q);
     let mut ties = 0u64;
     for i in 0..nq {
